@@ -5,7 +5,7 @@ ENGINES = [
     {"name": "E4", "path": "mc/props/c20.py", "kind_free_text": "fault enumeration: every fault kind at every conversion index x every pre-existing on-disk state; directory subsets x modes",
      "serves_properties": ["C20"]},
     {"name": "E3", "path": "mc/engine/choice.py + mc/instr/setorder.py", "kind_free_text": "stateless deviation-bounded choice exploration: the iteration order of every set created in antiSMASH code (AST import hook) is a choice; default run, then every single deviation, pairs, ...",
-     "serves_properties": ["C13", "C17"]},
+     "serves_properties": ["C13", "C17", "C18"]},
     {"name": "E1", "path": "mc/engine/core.py", "kind_free_text": "bounded exhaustive input enumeration of the real functions against set-of-bases / truth-table reference models, sharded over processes",
      "serves_properties": ["C01", "C02", "C03", "C04", "C05", "C07", "C08", "C09", "C14", "C15", "C16", "C19"]},
 ]
@@ -117,4 +117,11 @@ CHECKS = {
                      "order must produce byte-identical output. The same scenarios run uninstrumented in 8/32 child processes with different hash seeds "
                      "and allocation patterns; all must agree with each other and with the explored outcome.",
                 note="Seed space 2^32 replaced by exhaustive ownership of set iteration order within the deviation bound; dict order is insertion order; sets inside Biopython/stdlib not instrumented; pair exploration capped at 4000 runs per scenario in thorough (cap reported)."),
+    "C18": dict(engine="E3+E4", level="model_checking", ref="DESIGN.md 5/C18",
+                technique="explicit model of the pool's FIFO chunk dispatch whose every trace (completion order within a deviation bound) is replayed on the real multiprocessing pool under a controller gating each task with fork-inherited Events; fault enumeration of failing/hanging tasks",
+                text="For every (n tasks, k workers) of the grid, every completion order within the deviation bound is executed on the real "
+                     "parallel_function: tasks block on their own Events, the controller releases the task the schedule names once the real started-set "
+                     "equals the model's. The returned list must equal the sequential result in argument order for every schedule; a task raising at any "
+                     "position or hanging past the timeout must raise in the caller. Annotated records are compared across pickle and real pool round trips.",
+                note="Model/implementation conformance is enforced at every step (divergence = harness error after a 60 s watchdog, never a verdict); worker counts 1-4 and 16; deviation bound 2 (quick) / 3 (thorough)."),
 }
